@@ -331,6 +331,7 @@ def run(tier, seed):
     std.add_results(rep, res, 'corpus')
     std.run_boundary(rep, tier, check_case)
     std.run_named(rep, gmsg.same_shape_other_bitmap_cases(), check_case, 'same descriptors, other bitmap', 'same_descriptors_other_bitmap')
+    std.run_named(rep, gmsg.unclosed_scope_cases(), check_case, 'template ends inside an operator scope', 'template_ends_inside_an_operator_scope')
     # subsets with about 100 000 values: the flat text numbers its lines in a five-character column
     res = runner.run_enumerated([100001] if tier == 'quick' else [99999, 100000, 100001, 100002, 131073], check_large, workers, chunk=1)
     for case, out, excl in res:
